@@ -5,7 +5,7 @@
    byte sequences (lexcmp on utf8_encode). *)
 From Coq Require Import ZArith List Bool Sorted.
 From EV Require Import Res Arr UniqueSpec Unique UniqueOrder UniqueUtf8 UniqueSort UniqueStore UniqueIsin
-                       UniqueScan UniqueMain UniqueCor UniqueSafe.
+                       UniqueScan UniqueMain UniqueCor UniqueSafe UniqueContainer.
 Import ListNotations.
 Open Scope Z_scope.
 
@@ -149,6 +149,35 @@ Theorem isin_membership : forall (ts:list (option (list Z))) xs ind vals fuel,
       (nthd false flags i = true <-> exists s, In (Some s) ts /\ utf8_encode s = nthd [] xs i).
 Proof. exact UniqueCor.isin_membership. Qed.
 Print Assumptions isin_membership.
+
+(* ---- isin does not depend on the container form of the test values ---- *)
+(* full: Field.isin accepts a list, a set or an ndarray (a set is converted with list(...): each member once, in an
+   order the caller does not control; lists / arrays may repeat members).  Two collections with the same non-None
+   members give the same answer: for the specification over every carrier ... *)
+Theorem spec_isin_container_independent : forall (A:Type) (cmp:A -> A -> comparison) xs ts ts',
+  same_members ts ts' -> spec_isin cmp xs ts = spec_isin cmp xs ts'.
+Proof. exact @UniqueContainer.spec_isin_container_independent. Qed.
+Print Assumptions spec_isin_container_independent.
+
+(* ... in particular for a collection with a repeated member and its de-duplicated form ... *)
+Theorem spec_isin_duplicate_member : forall (A:Type) (cmp:A -> A -> comparison) xs t ts,
+  In t ts -> spec_isin cmp xs (t :: ts) = spec_isin cmp xs ts.
+Proof. exact @UniqueContainer.spec_isin_dup. Qed.
+Print Assumptions spec_isin_duplicate_member.
+
+(* ... and for the model of the indexed-string path (np.sort, UTF-8 encoding, binary search), rows of any byte length *)
+Theorem isin_indexed_container_independent : forall (ts ts':list (option (list Z))) xs ind vals fuel fuel',
+  Forall (fun s => valid_strb s = true) (somes ts) ->
+  Forall (fun s => valid_strb s = true) (somes ts') ->
+  stored xs ind vals ->
+  (fuel >= isin_fuel (somes ts))%nat -> (fuel' >= isin_fuel (somes ts'))%nat ->
+  same_members ts ts' ->
+  isin_for_indexed_string_field fuel (Some ts) ind vals = isin_for_indexed_string_field fuel' (Some ts') ind vals.
+Proof. exact UniqueContainer.isin_indexed_container_independent. Qed.
+Print Assumptions isin_indexed_container_independent.
+
+Example same_members_example : same_members [Some [98]; None; Some [97]; Some [98]] [Some [97]; Some [98]].
+Proof. intros a; cbn [In]; split; intros H; repeat (destruct H as [H|H]; try discriminate; auto). Qed.
 
 (* ---- the specification functions meet the property text, for every field type's carrier ---- *)
 (* integers: numeric, categorical, timestamp ticks *)
